@@ -6,9 +6,11 @@ package subscribe
 
 // The per-RPC ACL: its answer for a target is recorded in the ghost pair
 // (lastChecked, lastVerdict) declared with the gRPC stubs; Send requires it.
+//@ ghost aclChecks int
 //@ func iface RPCACL.Check (target)
 //@   effect lastChecked := target
 //@   effect lastVerdict := res0
+//@   effect aclChecks := aclChecks + 1
 
 // Test hook that stalls before a send; assumed not to touch server state.
 //@ func field options.flowControlTest
@@ -41,11 +43,11 @@ package subscribe
 // No response for a target the ACL denies: the only Send of an update is
 // dominated by a successful Check of that message's own prefix target.
 //@ func (*Server).sendSubscribeResponse
-//@   props C07 C08 C12
+//@   props C07 C08 C05 C12
 //@   requires s != nil && RespWf(r) && ClientWf(c)
-//@   modifies ghost lastChecked, ghost lastVerdict, ghost sends, ghost sendTimerArmed
+//@   modifies ghost lastChecked, ghost lastVerdict, ghost aclChecks, ghost sends, ghost sendTimerArmed
 //@   ensures [one-send-at-most C07] sends == old(sends) || sends == old(sends) + 1
-//@   ensures [timer-disarmed-after C08] !sendTimerArmed || sends == old(sends)
+//@   ensures [timer-disarmed-after C08 C05] !sendTimerArmed || sends == old(sends)
 
 // The package-level sync response carries no update (established by the
 // package initialiser; no function under contract writes it).
@@ -57,8 +59,11 @@ package subscribe
 //@ pred StreamClientWf(c *streamClient) := c != nil && c.acl != nil && c.stream != nil && QueueStable(c.queue) && c.errC != nil && !closed(c.errC) && RequestWf(c.sr)
 
 // A whole-target delete: one delete whose prefix+path index is exactly ["*"] with no origin.
+// tdelSeen: a whole-target delete has been recognised by this sender.
+//@ ghost tdelSeen bool
 //@ func isTargetDelete
 //@   props C14 C12
+//@   effect tdelSeen := tdelSeen || res0
 //@   ensures [shape C14] res0 ==> l != nil && isa(LeafValue(l).(*pb.Notification)) && len(LeafValue(l).(*pb.Notification).Delete) == 1
 //@     && (LeafValue(l).(*pb.Notification).Prefix == nil || LeafValue(l).(*pb.Notification).Prefix.Origin == "")
 //@   ensures [recognised C14] l != nil && isa(LeafValue(l).(*pb.Notification)) && len(LeafValue(l).(*pb.Notification).Delete) == 1
@@ -79,6 +84,7 @@ package subscribe
 // path error no sync marker at all; updates_only skips the walk.
 //@ func (*Server).processSubscription
 //@   props C05 C04 C12
+//@   effect walks := walks + 1
 //@   requires s != nil && s.c != nil && StreamClientWf(c)
 //@   modifies ghost syncInserts, ghost leafInserts, ghost lastInsertWasSync
 //@   invariant 0: syncInserts == old(syncInserts) && err == nil
@@ -86,3 +92,97 @@ package subscribe
 //@   ensures [updates-only-skips-walk C04] UpdatesOnly(c.sr) ==> leafInserts == old(leafInserts)
 //@ pred UpdatesOnly(r *pb.SubscribeRequest) := isa(r.Request.(*pb.SubscribeRequest_Subscribe)) && payload(r.Request) != nil
 //@   && r.Request.(*pb.SubscribeRequest_Subscribe).Subscribe != nil && r.Request.(*pb.SubscribeRequest_Subscribe).Subscribe.UpdatesOnly
+
+// Statistics helpers (under their own mutex; irrelevant to the properties).
+//@ func (*stats).removeClientStats
+//@   props C12
+//@   requires s != nil
+//@ func (*stats).clientStats
+//@   props C12
+//@   requires s != nil
+//@   ensures res0 != nil
+//@ func (*stats).targetStats
+//@   props C12
+//@   requires s != nil
+//@   ensures res0 != nil
+//@ func (*stats).typeStats
+//@   props C12
+//@   requires s != nil
+//@   ensures res0 != nil
+//@ func field options.clientStatsTest
+//@ func field options.updateSubsCountEnterTest
+//@ func field options.updateSubsCountExitTest
+
+//@ func (*Server).updateClientStats
+//@   props C12
+//@   requires s != nil
+
+// The sender: every dequeued sync marker is answered by the package-level
+// sync response (which carries no update), every leaf by one
+// sendSubscribeResponse carrying the item and the duplicate count Next
+// returned for it; a whole-target delete ends a single-target stream.
+//@ func (*Server).sendStreamingResults
+//@   props C05 C07 C08 C14 C04 C12
+//@   requires s != nil && StreamClientWf(c) && SyncRespWf() && !tdelSeen
+//@   modifies ghost lastChecked, ghost lastVerdict, ghost aclChecks, ghost sends, ghost sendTimerArmed, ghost tdelSeen
+//@   invariant 0: [single-target-stream-ends-after-target-delete C14] !tdelSeen || c.target == "*"
+//@   assert at call (*Server).sendSubscribeResponse#0: [dup-count-is-the-dequeued-one C08] arg1.dup == dup && arg1.stream == c.stream && arg1.n != nil && box(arg1.n) == item
+//@   assert at call BidiStreamingServer.Send#0: [sync-response-only C07 C05] arg0 == subscribeSync && isa(item.(syncMarker))
+
+// POLL: one walk for the initial request, then one walk per received trigger.
+//@ ghost walks int
+//@ func (*Server).processPollingSubscription
+//@   props C05 C12
+//@   requires s != nil && s.c != nil && StreamClientWf(c)
+//@   modifies ghost syncInserts, ghost leafInserts, ghost lastInsertWasSync, ghost recvs, ghost walks
+//@   invariant 0: [one-walk-per-trigger C05] walks == old(walks) + 1 + recvs - old(recvs)
+//@   ensures [walks-match-triggers C05] walks - old(walks) == recvs - old(recvs) || walks - old(walks) == recvs - old(recvs) + 1
+
+// ---- Subscribe ------------------------------------------------------------
+//@ ghost aclFailed bool
+//@ func iface ACL.NewRPCACL
+//@   effect aclFailed := res1 != nil
+//@   ensures res1 == nil ==> res0 != nil
+//@   note ACL implementations are assumed to return a usable per-RPC ACL when they return no error
+//@ func iface aclStub.Check
+
+// registered: this RPC's queue is attached to the matcher (updates reach it).
+//@ ghost registered bool
+//@ func addSubscription
+//@   props C04 C06 C12
+//@   requires m != nil && s != nil && c != nil
+//@   effect registered := true
+//@   ensures res0 != nil
+//@ func result addSubscription
+//@   note the returned closure only runs the remove functions handed out by match.AddQuery
+//@ func result (*Server).updateTargetCounts
+//@ func result (*Server).updateTypeCounts
+//@ func (*Server).updateTargetCounts
+//@   props C12
+//@   requires s != nil
+//@   ensures res0 != nil
+//@ func (*Server).updateTypeCounts
+//@   props C12
+//@   requires s != nil
+//@   ensures res0 != nil
+
+// grpc codes: 3 InvalidArgument, 5 NotFound, 7 PermissionDenied, 16 Unauthenticated.
+//@ func (*Server).Subscribe
+//@   props C07 C04 C05 C12
+//@   requires s != nil && s.c != nil && s.m != nil && stream != nil && SyncRespWf() && !tdelSeen && !aclFailed && !registered
+//@   modifies *
+//@   ensures [unauthenticated-before-anything C07] aclFailed ==> res0 != nil && errcode(res0) == 16 && recvs == old(recvs) && sends == old(sends) && spawns() == old(spawns())
+//@   ensures [denied-before-any-goroutine C07] aclChecks == old(aclChecks) + 1 && !lastVerdict ==> res0 != nil && errcode(res0) == 7
+//@     && sends == old(sends) && spawns() == old(spawns()) && !registered
+//@   assert at go (*Server).Subscribe$1#0: [acl-gate C07] c.target == "*" || (lastVerdict && lastChecked == c.target)
+//@   assert at go (*Server).processPollingSubscription#0: [acl-gate C07] c.target == "*" || (lastVerdict && lastChecked == c.target)
+//@   assert at go (*Server).processSubscription#0: [acl-gate C07] c.target == "*" || (lastVerdict && lastChecked == c.target)
+//@   assert at go (*Server).processSubscription#0: [register-before-walk C04] registered
+//@   assert at go (*Server).sendStreamingResults#0: [acl-gate C07] c.target == "*" || (lastVerdict && lastChecked == c.target)
+//@   assert at call addSubscription#0: [acl-gate C07] c.target == "*" || (lastVerdict && lastChecked == c.target)
+
+// The ONCE goroutine: walk, then close the queue (the sender drains it first).
+//@ func (*Server).Subscribe$1
+//@   props C05 C12
+//@   requires s != nil && s.c != nil && StreamClientWf(c)
+//@   modifies *
